@@ -52,7 +52,7 @@ Definition f28_schedule : list nat := ([0; 0] ++ repeat 1 11 ++ repeat 0 5 ++ re
 Theorem watermark_safe_refuted :
   exists size progs sched,
     let g := run (tstep true) (init size progs) sched in
-    g_tracked g = [6; 2] /\ g_done g = 2 /\ safe_b g = false.
+    g_tracked g = [(6, 1%nat); (2, 0%nat)] /\ g_done g = 2 /\ safe_b g = false.
 Proof. exists 4%nat, f28_progs, f28_schedule. vm_compute. repeat split; reflexivity. Qed.
 
 (** * oracles *)
